@@ -15,7 +15,7 @@ PROPS = {
         "rule": "cases: scalar values from the boundary-biased generator gen.Int(n) (tiny, n-1.., 2^k+-1, bit 255 forced, limb "
                 "patterns, windows, sparse, short, uniform), built either through Decode (canonical domain) or by writing "
                 "Montgomery limbs; plus fixed boundary scalars. Non-trivial: canonical value > 1. Distinct: by hash of the case.",
-        "units": [unit("props", "^TestC14", tier(160000, 8, 300), tier(8000000, 16, 3000))],
+        "units": [unit("props", "^TestC14", tier(800000, 8, 900), tier(16000000, 16, 5400))],
         "checks_expected": ["C14/bits"],
     },
     "C13": {
@@ -23,14 +23,14 @@ PROPS = {
                 "changed, one Montgomery limb changed, random) from the boundary-biased scalar generator; non-trivial = the two values "
                 "differ. cselect: condition words from {0,1,2,3,4,0xff,2^31,2^32,2^63,2^64-1,...} or uniform, operands in both domains, "
                 "nil operands, receiver aliasing an operand; non-trivial = cond not in {0,1}, u != v, no nil. Distinct: by case hash.",
-        "units": [unit("props", "^TestC13", tier(160000, 8, 300), tier(8000000, 16, 3000))],
+        "units": [unit("props", "^TestC13", tier(800000, 8, 900), tier(16000000, 16, 5400))],
         "checks_expected": ["C13/compare", "C13/cselect"],
     },
     "C06": {
         "rule": "cases (op, s, t, alias, nil, u64): op from {add,sub,mul,square,invert,pow,setuint64,zero,one,minusone,set,copy}; "
                 "operands from the boundary-biased generator in canonical (via Decode) and Montgomery-limb domains; 10% aliased, 10% nil. "
                 "Oracle math/big mod n plus stored-limbs canonicity. Non-trivial = an operand (or the uint64) is > 1. Distinct by case hash.",
-        "units": [unit("props", "^TestC06", tier(120000, 8, 300), tier(6000000, 16, 3000, fuzztime=90), fuzz=["FuzzScalarOps"])],
+        "units": [unit("props", "^TestC06", tier(600000, 8, 900), tier(12000000, 16, 5400, fuzztime=90), fuzz=["FuzzScalarOps"])],
         "checks_expected": ["C06/ops"],
     },
     "C07": {
@@ -38,7 +38,7 @@ PROPS = {
                 "derived from valid encodings, random 0..80 bytes, random 32 bytes) through Decode/UnmarshalBinary/DecodeHex (hex: "
                 "upper/mixed case, odd length, non-hex rune); non-trivial = 32-byte input within 2^128 of n or differing from n in one "
                 "limb, or a non-empty wrong length, or malformed hex. encode: scalars in both domains; non-trivial = value > 1.",
-        "units": [unit("props", "^TestC07", tier(120000, 8, 300), tier(6000000, 16, 3000, fuzztime=90), fuzz=["FuzzScalarDecode"])],
+        "units": [unit("props", "^TestC07", tier(600000, 8, 900), tier(12000000, 16, 5400, fuzztime=90), fuzz=["FuzzScalarDecode"])],
         "checks_expected": ["C07/decode", "C07/encode"],
     },
     "C01": {
@@ -49,7 +49,7 @@ PROPS = {
                 "raw coordinates. Non-trivial = k > 1 and P != O (nil-scalar cases also count). kfold: k in 0..64 against literal k-fold "
                 "sums (model and implementation Add). metamorphic: [a]P+[n-a]P=O, [a]P+[b]P=[a+b]P, [a]([b]P)=[ab]P, [n-1]P=-P; "
                 "non-trivial = a,b > 1 and P != O. Distinct by case hash.",
-        "units": [unit("wb", "^TestC01", tier(2400, 8, 600), tier(120000, 16, 3400), overlay="access")],
+        "units": [unit("wb", "^TestC01", tier(12000, 8, 900), tier(480000, 16, 5400), overlay="access")],
         "checks_expected": ["C01/reference", "C01/kfold", "C01/metamorphic"],
     },
     "C02": {
@@ -59,7 +59,7 @@ PROPS = {
                 "op from {Add, Subtract, Double, Negate}. Oracle: textbook affine law on the values denoted by the raw coordinates; result "
                 "must be a valid projective point, argument value unchanged. Non-trivial = anything but 'independent, both Z=1, neither "
                 "identity'. Distinct by case hash.",
-        "units": [unit("wb", "^TestC02", tier(40000, 8, 600), tier(2000000, 16, 3400), overlay="access")],
+        "units": [unit("wb", "^TestC02", tier(200000, 8, 900), tier(8000000, 16, 5400), overlay="access")],
         "checks_expected": ["C02/grouplaw"],
     },
     "C04": {
@@ -67,7 +67,7 @@ PROPS = {
                 "MarshalBinary compared with SEC1 bytes built by the model from the value the raw coordinates denote; both encodings "
                 "round-trip through Decode (identity included); two representations encode identically. Non-trivial = identity, Z != 1, "
                 "odd y, or any recipe step. Distinct by case hash.",
-        "units": [unit("wb", "^TestC04", tier(24000, 8, 600), tier(1200000, 16, 3400), overlay="access")],
+        "units": [unit("wb", "^TestC04", tier(120000, 8, 900), tier(4800000, 16, 5400), overlay="access")],
         "checks_expected": ["C04/encodings"],
     },
     "C05": {
@@ -75,7 +75,7 @@ PROPS = {
                 "unrelated, any vs identity, identity vs identity (all identity forms), same pointer}; oracle = model equality of the "
                 "values denoted by the raw coordinates; symmetry, 0/1 range, IsIdentity. Non-trivial = shared coordinate, an identity "
                 "involved, equal elements in different representations, or any recipe step. Distinct by case hash.",
-        "units": [unit("wb", "^TestC05", tier(40000, 8, 600), tier(2000000, 16, 3400), overlay="access")],
+        "units": [unit("wb", "^TestC05", tier(200000, 8, 900), tier(8000000, 16, 5400), overlay="access")],
         "checks_expected": ["C05/equal"],
     },
     "C03": {
@@ -86,7 +86,7 @@ PROPS = {
                 "length, non-hex rune), UnmarshalBinary} x prior receiver (point spec with recipe). Oracle: acceptance predicate written "
                 "from the statement; accepted => exact point, rejected => error and unchanged receiver value. Non-trivial = every case "
                 "except random strings of a length no decoder accepts. Distinct by case hash.",
-        "units": [unit("props", "^TestC03", tier(40000, 8, 600), tier(2000000, 16, 3400, fuzztime=120), fuzz=["FuzzElementDecode"])],
+        "units": [unit("props", "^TestC03", tier(200000, 8, 900), tier(8000000, 16, 5400, fuzztime=120), fuzz=["FuzzElementDecode"])],
         "checks_expected": ["C03/decoders"],
     },
     "C08": {
@@ -95,7 +95,7 @@ PROPS = {
                 "1..80 / 200..320, empty and nil DST; slices placed with interior offset and spare capacity. Oracle: independent RFC 9380 "
                 "implementation (sum taken on secp256k1 after the isogeny), determinism, result decodes. Non-trivial = every case with a "
                 "non-empty DST (classes of the model's branch trace are counted). Distinct by case hash.",
-        "units": [unit("props", "^TestC08", tier(8000, 8, 600), tier(400000, 16, 3400, fuzztime=120), fuzz=["FuzzHashToCurve"])],
+        "units": [unit("props", "^TestC08", tier(40000, 8, 900), tier(1600000, 16, 5400, fuzztime=120), fuzz=["FuzzHashToCurve"])],
         "checks_expected": ["C08/hash2curve", "C08/sequence"],
     },
     "C09": {
@@ -103,8 +103,8 @@ PROPS = {
                 "widereduce: chosen 48-byte expander outputs (all ones, low/high half zero, high half all ones, multiples of n +-d, "
                 "n..3n +-d, limb patterns, random) fed to internal/scalar.HashToFieldElement; non-trivial = high half non-zero and value "
                 ">= n. expander (white-box): expandXMD(msg, DST, L) for L in {48, 96} against the model. Distinct by case hash.",
-        "units": [unit("props", "^TestC09", tier(16000, 4, 600), tier(800000, 8, 3400)),
-                  unit("internalpkg", "^TestC09", tier(160000, 4, 600), tier(6000000, 8, 3400), overlay="access")],
+        "units": [unit("props", "^TestC09", tier(80000, 8, 900), tier(3200000, 16, 5400)),
+                  unit("internalpkg", "^TestC09", tier(800000, 8, 900), tier(16000000, 16, 5400), overlay="access")],
         "checks_expected": ["C09/hash2scalar", "C09/sequence", "C09/widereduce", "C09/expander"],
     },
     "C11": {
@@ -112,7 +112,7 @@ PROPS = {
                 "values 0 and +-sqrt(-1/Z) as fixed cases and with probability 1/16; oracle = RFC 9380 6.6.2 (non-straight-line) and "
                 "E.1 isogeny in the model; also on-E', sgn0 rule, SSWU(-u) = -SSWU(u), image on secp256k1. isogeny (white-box): "
                 "points of E' built by the model from boundary-biased abscissae, both signs. Non-trivial = all (duplicates removed by hash).",
-        "units": [unit("internalpkg", "^TestC11", tier(16000, 8, 600), tier(800000, 16, 3400), overlay="access")],
+        "units": [unit("internalpkg", "^TestC11", tier(80000, 8, 900), tier(3200000, 16, 5400), overlay="access")],
         "checks_expected": ["C11/sswu", "C11/isogeny"],
     },
     "C12": {
@@ -121,7 +121,7 @@ PROPS = {
                 "Montgomery-limb domains; equals also on pairs differing in exactly one Montgomery limb; sqrtratio with 1/4 forced "
                 "squares. Oracle math/big mod p, canonicity of stored limbs. Non-trivial = an operand > 1. bytes: 32-byte strings around "
                 "p (p+-d, one limb replaced, top of range) for the parser flag/value, 48-byte classes for the wide reduction.",
-        "units": [unit("internalpkg", "^TestC12", tier(160000, 8, 600), tier(8000000, 16, 3400, fuzztime=90), fuzz=["FuzzFieldOps"])],
+        "units": [unit("internalpkg", "^TestC12", tier(800000, 8, 900), tier(16000000, 16, 5400, fuzztime=90), fuzz=["FuzzFieldOps"])],
         "checks_expected": ["C12/ops", "C12/bytes"],
     },
     "C10": {
@@ -133,7 +133,7 @@ PROPS = {
                 "receiver/argument indices drawn independently (aliasing). After every step every variable is compared with the model "
                 "(Encode, IsIdentity, IsZero, all Equal pairs, LessOrEqual pairs, curve membership). Non-trivial = history with >= 10 "
                 "steps, >= 1 aliased call and >= 1 operation producing Z != 1. Distinct by hash of the whole history.",
-        "units": [unit("props", "^TestC10", tier(2400, 8, 600), tier(120000, 16, 3400))],
+        "units": [unit("props", "^TestC10", tier(12000, 8, 900), tier(480000, 16, 5400))],
         "checks_expected": ["C10/history"],
     },
     "C15": {
@@ -143,7 +143,7 @@ PROPS = {
                 "DST adjacent in one backing array; whole backing arrays compared before/after; returned slices overwritten up to cap and "
                 "compared with later results, two results must not overlap; non-receiver operands keep their value. Non-trivial = an input "
                 "slice with cap > len / interior / shared, any slice-returning call, or a pointer argument in a non-default representation.",
-        "units": [unit("props", "^TestC15", tier(24000, 8, 600), tier(1200000, 16, 3400))],
+        "units": [unit("props", "^TestC15", tier(120000, 8, 900), tier(4800000, 16, 5400))],
         "checks_expected": ["C15/memory"],
     },
     "C18": {
@@ -152,7 +152,7 @@ PROPS = {
                 "{32,1,31,7,16,33,64} bytes (cycled); optional fault (error, EOF, or bytes+error) either strictly before the first usable "
                 "block is complete (must panic) or >= 64 bytes after it (must succeed). Oracle: first complete block with v mod n != 0, "
                 "reduced. Non-trivial = more than one block, a fault, or a first block >= n. Distinct by case hash.",
-        "units": [unit("props", "^TestC18", tier(80000, 4, 600), tier(4000000, 16, 3400))],
+        "units": [unit("props", "^TestC18", tier(400000, 8, 900), tier(16000000, 16, 5400))],
         "checks_expected": ["C18/random"],
     },
     "C16": {
@@ -162,7 +162,7 @@ PROPS = {
                 "2..8 goroutines released together, each in its own generated permutation, on private receivers. Oracles: the Go race "
                 "detector (happens-before; exit code 66 on any race), per-goroutine results equal to the sequential results, shared "
                 "arguments unchanged. Non-trivial = at least two goroutines and one call. Distinct by case hash.",
-        "units": [unit("race", "^TestC16", tier(1200, 8, 900), tier(60000, 16, 3400), race=True)],
+        "units": [unit("race", "^TestC16", tier(4000, 8, 900), tier(160000, 16, 5400), race=True)],
         "checks_expected": ["C16/concurrent"],
         "assumptions": ["race detection is happens-before based: it reports conflicting accesses that execute, it does not enumerate interleavings"],
     },
@@ -173,7 +173,7 @@ PROPS = {
                 "case for each function. Each program is built with plain `go build` against the tree under test and executed; oracle: "
                 "exit status 0 and printed hex equals the model value. Non-trivial = the other imports do not link crypto/sha256 "
                 "(decided with `go list -deps`). Distinct by case hash.",
-        "units": [unit("prog", "^TestC17", tier(12, 4, 900), tier(96, 16, 3400))],
+        "units": [unit("prog", "^TestC17", tier(16, 8, 900), tier(160, 16, 5400))],
         "checks_expected": ["C17/programs"],
         "assumptions": ["'programs' is narrowed to import sets of standard-library packages under one toolchain/GOOS"],
     },
@@ -183,7 +183,7 @@ PROPS = {
                 "cases on G, a Z != 1 point and the identity. Oracle (metamorphic): the sequence of function entries in internal/field "
                 "and internal/scalar recorded during Multiply(k) equals, in length and order, the sequence recorded during Multiply(0) on "
                 "a copy of the same point (about 78 900 entries). Non-trivial = k != 0. Distinct by case hash.",
-        "units": [unit("trace", "^TestC19", tier(2400, 8, 900), tier(120000, 16, 3400), overlay="trace")],
+        "units": [unit("trace", "^TestC19", tier(12000, 8, 900), tier(480000, 16, 5400), overlay="trace")],
         "checks_expected": ["C19/schedule"],
         "assumptions": ["granularity is function entry in internal/*: data-dependent branches inside one function, memory access patterns and real timing are not observed"],
     },
